@@ -278,11 +278,11 @@ func (b *vfc35Bucket) mutate(ctx context.Context, kind, name string, apply func(
 	return err
 }
 
-func (b *vfc35Bucket) Provider() objstore.ObjProvider    { return b.inner.Provider() }
-func (b *vfc35Bucket) Name() string                      { return "vfc35-fault-bucket" }
-func (b *vfc35Bucket) Close() error                      { return nil }
-func (b *vfc35Bucket) IsObjNotFoundErr(err error) bool   { return b.inner.IsObjNotFoundErr(err) }
-func (b *vfc35Bucket) IsAccessDeniedErr(err error) bool  { return false }
+func (b *vfc35Bucket) Provider() objstore.ObjProvider   { return b.inner.Provider() }
+func (b *vfc35Bucket) Name() string                     { return "vfc35-fault-bucket" }
+func (b *vfc35Bucket) Close() error                     { return nil }
+func (b *vfc35Bucket) IsObjNotFoundErr(err error) bool  { return b.inner.IsObjNotFoundErr(err) }
+func (b *vfc35Bucket) IsAccessDeniedErr(err error) bool { return false }
 func (b *vfc35Bucket) SupportedIterOptions() []objstore.IterOptionType {
 	return b.inner.SupportedIterOptions()
 }
@@ -343,10 +343,17 @@ func (b *vfc35Bucket) Delete(ctx context.Context, name string) error {
 var vfc35Logger = log.NewNopLogger()
 
 type vfc35Blk struct {
-	ID    ulid.ULID
-	Level int
-	Segs  int
-	Kind  string // "data" | "empty" | "corrupted"
+	ID     ulid.ULID
+	Level  int
+	Segs   int
+	Kind   string // "data" | "empty" | "corrupted"
+	Layout string // "dir": <data>/<ULID> is the directory | "symlink-inside": <data>/<ULID> -> relocated/<ULID> (relative, inside the data dir)
+}
+
+// vfc35Decoy: a directory entry named like a ULID that is not a block directory.
+type vfc35Decoy struct {
+	Name string `json:"name"`
+	Kind string `json:"kind"` // "plain-file" | "dangling-symlink" | "symlink-escaping-data-dir"
 }
 
 // vfc35BuildBlock writes a real TSDB block as Prometheus leaves it (no thanos section in meta.json) into parent.
@@ -534,14 +541,16 @@ type vfc35Step struct {
 }
 
 type vfc35Case struct {
-	r      *vfkit.Run
-	t      *testing.T
-	c      int
-	cfg    vfc35Cfg
-	blocks []vfc35Blk
-	steps  []vfc35Step
-	tsdb   string
-	stage  string
+	r       *vfkit.Run
+	t       *testing.T
+	c       int
+	cfg     vfc35Cfg
+	blocks  []vfc35Blk
+	steps   []vfc35Step
+	tsdb    string
+	stage   string
+	decoys  []vfc35Decoy
+	outside string // a directory outside the data dir (target of escaping symlinks)
 
 	// state of one history replay
 	inner      *objstore.InMemBucket
@@ -686,13 +695,40 @@ func (cs *vfc35Case) reset() {
 		cs.fatal("%v", err)
 	}
 	for _, de := range des {
-		if _, err := ulid.Parse(de.Name()); err == nil {
-			if err := os.Rename(filepath.Join(cs.tsdb, de.Name()), filepath.Join(cs.stage, de.Name())); err != nil {
+		p := filepath.Join(cs.tsdb, de.Name())
+		if _, err := ulid.Parse(de.Name()); err == nil && de.IsDir() { // a real block directory (lstat: not a symlink)
+			if err := os.Rename(p, filepath.Join(cs.stage, de.Name())); err != nil {
 				cs.fatal("%v", err)
 			}
 			continue
 		}
-		if err := os.RemoveAll(filepath.Join(cs.tsdb, de.Name())); err != nil {
+		if de.Name() == "relocated" {
+			rel, err := os.ReadDir(p)
+			if err != nil {
+				cs.fatal("%v", err)
+			}
+			for _, rd := range rel {
+				if err := os.Rename(filepath.Join(p, rd.Name()), filepath.Join(cs.stage, rd.Name())); err != nil {
+					cs.fatal("%v", err)
+				}
+			}
+		}
+		if err := os.RemoveAll(p); err != nil { // symlinks, decoys, thanos/, thanos.shipper.json, relocated/
+			cs.fatal("%v", err)
+		}
+	}
+	for _, d := range cs.decoys {
+		p := filepath.Join(cs.tsdb, d.Name)
+		var err error
+		switch d.Kind {
+		case "plain-file":
+			err = os.WriteFile(p, []byte("not a block"), 0o644)
+		case "dangling-symlink":
+			err = os.Symlink(filepath.Join("relocated", "gone-"+d.Name), p)
+		case "symlink-escaping-data-dir":
+			err = os.Symlink(cs.outside, p)
+		}
+		if err != nil {
 			cs.fatal("%v", err)
 		}
 	}
@@ -716,6 +752,19 @@ func (cs *vfc35Case) reap() {
 func (cs *vfc35Case) applyStep(s vfc35Step) {
 	for _, i := range s.Appear {
 		id := cs.blocks[i].ID.String()
+		if cs.blocks[i].Layout == "symlink-inside" {
+			// the block directory lives elsewhere inside the data dir, <data>/<ULID> is a relative symlink to it
+			if err := os.MkdirAll(filepath.Join(cs.tsdb, "relocated"), 0o750); err != nil {
+				cs.fatal("%v", err)
+			}
+			if err := os.Rename(filepath.Join(cs.stage, id), filepath.Join(cs.tsdb, "relocated", id)); err != nil {
+				cs.fatal("%v", err)
+			}
+			if err := os.Symlink(filepath.Join("relocated", id), filepath.Join(cs.tsdb, id)); err != nil {
+				cs.fatal("%v", err)
+			}
+			continue
+		}
 		if err := os.Rename(filepath.Join(cs.stage, id), filepath.Join(cs.tsdb, id)); err != nil {
 			cs.fatal("%v", err)
 		}
@@ -816,7 +865,7 @@ func (cs *vfc35Case) violation(fp, what string, extra map[string]any) {
 		}
 		return nil
 	})
-	w := map[string]any{"config": cs.cfg, "blocks": cs.blocks, "steps": cs.steps, "history": append([]string(nil), cs.trace...),
+	w := map[string]any{"config": cs.cfg, "blocks": cs.blocks, "decoy_entries": cs.decoys, "steps": cs.steps, "history": append([]string(nil), cs.trace...),
 		"bucket": listing, "local_dir": local}
 	for k, v := range extra {
 		w[k] = v
@@ -883,11 +932,16 @@ func (cs *vfc35Case) checkAfterSuccess(when string) {
 		cs.fatal("%v", err)
 	}
 	for _, de := range des {
-		if _, err := ulid.Parse(de.Name()); err != nil || !de.IsDir() {
+		if _, err := ulid.Parse(de.Name()); err != nil {
 			continue
 		}
 		id := de.Name()
 		dir := filepath.Join(cs.tsdb, id)
+		// a block is what the name resolves to (Stat semantics, as Shipper.blockMetasFromOldest decides it):
+		// a directory, possibly reached through a symlink
+		if fi, err := os.Stat(dir); err != nil || !fi.IsDir() {
+			continue
+		}
 		raw, err := os.ReadFile(filepath.Join(dir, block.MetaFilename))
 		if err != nil {
 			continue // corrupted local block: not eligible
@@ -1145,6 +1199,13 @@ func (cs *vfc35Case) expectSuccess() bool {
 			return false
 		}
 	}
+	for _, d := range cs.decoys {
+		// the shipper Stats every ULID-named entry through its os.Root: a dangling link and a link leaving the
+		// data dir both fail there, and Sync reports an error (or a failed block) on every run
+		if d.Kind != "plain-file" {
+			return false
+		}
+	}
 	return true
 }
 
@@ -1201,6 +1262,29 @@ func vfc35GenCase(t *testing.T, r *vfkit.Run, c int, rng *rand.Rand, dir string)
 			cs.blocks = append(cs.blocks, b)
 		}
 	}
+	// layouts: a block directory may be reached through a relative symlink inside the data dir; decoys are ULID-named
+	// entries that are no block directories. NOTE: drawn from a separate stream so that the block contents of a case
+	// do not depend on them.
+	lrng := r.RandS("layout", c)
+	for i := range cs.blocks {
+		cs.blocks[i].Layout = "dir"
+		if lrng.Intn(3) == 0 {
+			cs.blocks[i].Layout = "symlink-inside"
+		}
+	}
+	cs.outside = filepath.Join(dir, "outside-the-data-dir")
+	if err := os.MkdirAll(cs.outside, 0o750); err != nil {
+		cs.fatal("%v", err)
+	}
+	if lrng.Intn(3) == 0 {
+		cs.decoys = append(cs.decoys, vfc35Decoy{Name: ulid.MustNew(uint64(base)-1, lrng).String(), Kind: "plain-file"})
+	}
+	switch lrng.Intn(10) {
+	case 0:
+		cs.decoys = append(cs.decoys, vfc35Decoy{Name: ulid.MustNew(uint64(base)-2, lrng).String(), Kind: "dangling-symlink"})
+	case 1:
+		cs.decoys = append(cs.decoys, vfc35Decoy{Name: ulid.MustNew(uint64(base)-3, lrng).String(), Kind: "symlink-escaping-data-dir"})
+	}
 	// history: 1..3 steps; every block appears in exactly one step; labels may change between steps
 	ns := 1 + rng.Intn(3)
 	if ns > nb {
@@ -1233,9 +1317,9 @@ func vfc35GenCase(t *testing.T, r *vfkit.Run, c int, rng *rand.Rand, dir string)
 func TestVF_C35(t *testing.T) {
 	r := vfkit.Start(t, "C35")
 	defer r.Finish()
-	r.Rule("case = a shipper directory with 1..5 (quick tier: 1..3) real TSDB blocks (1..3 segment files; levels 1..3; possibly one block without samples and, with skip-corrupted, one directory without meta.json) x options (upload-compacted, allow-out-of-order, upload concurrency 0|1|4, hash func) x a history of 1..3 steps (blocks appear, external labels may change, Sync); " +
+	r.Rule("case = a shipper directory with 1..5 (quick tier: 1..3) real TSDB blocks (1..3 segment files; levels 1..3; possibly one block without samples and, with skip-corrupted, one directory without meta.json; a third of the block directories are reached through a relative symlink <data>/<ULID> -> relocated/<ULID>; ULID-named decoy entries: plain file, dangling symlink, symlink leaving the data dir) x options (upload-compacted, allow-out-of-order, upload concurrency 0|1|4, hash func) x a history of 1..3 steps (blocks appear, external labels may change, Sync); " +
 		"the fault-free history is run first; then for EVERY step and EVERY bucket operation k of that step's Sync the history is replayed with a fault at k (crash = the Sync's goroutines are frozen inside op k and a new Shipper starts on the same directory and bucket; fail-stop lost|applied + restart; fail-once lost|applied, same Shipper - in quick only with allow-out-of-order, where Sync goes on after a failed block), plus LOCAL crash states: for every block a Sync uploads, the process is killed inside Shipper.upload before that block's first bucket operation and thanos/upload/<id> is left holding every subset of {meta.json,index,chunks/*} (= every prefix of every linking order), no staging dir, no chunks/ sub-dir, or all files plus a half-written meta.json.tmp; each followed by up to 3 Syncs and (quick: in a third of the replays; thorough: always) the rest of the history; replays of a later step start from the recorded durable state (directory, thanos.shipper.json, bucket) of the fault-free history; thorough adds a second crash inside the first restart Sync; " +
-		"oracle (own JSON reading of local meta.json, thanos.shipper.json and the in-memory bucket): after EVERY Sync and crash thanos.shipper.json lists only blocks whose meta.json is in the bucket with every listed file at its recorded size; after every Sync that returned nil each local block with samples and (level 1 or upload-compacted) has meta.json, every listed file, byte-identical index and chunk segments, and exactly the external labels the shipper had when that meta.json was uploaded; " +
+		"oracle (own JSON reading of local meta.json, thanos.shipper.json and the in-memory bucket): after EVERY Sync and crash thanos.shipper.json lists only blocks whose meta.json is in the bucket with every listed file at its recorded size; after every Sync that returned nil each local block (a ULID-named entry that RESOLVES to a directory, Stat semantics) with samples and (level 1 or upload-compacted) has meta.json, every listed file, byte-identical index and chunk segments, and exactly the external labels the shipper had when that meta.json was uploaded; " +
 		"evaluation = one such check; distinct = (case, step, k, fault mode) where the fault was really injected and a later Sync returned nil with >= 1 eligible block verified")
 	n := r.N(12, 120)
 	r.Require(int64(n)*50, n*10)
@@ -1254,7 +1338,7 @@ func TestVF_C35(t *testing.T) {
 		cs := vfc35GenCase(t, r, c, rng, dir)
 		r.Count("wall_ms(informational):building-blocks", int(time.Since(t0).Milliseconds()))
 		t0 = time.Now()
-		r.Guard(c, "shipper-history", map[string]any{"config": cs.cfg, "blocks": cs.blocks, "steps": cs.steps}, func() { vfc35RunCase(cs, rng) })
+		r.Guard(c, "shipper-history", map[string]any{"config": cs.cfg, "blocks": cs.blocks, "decoy_entries": cs.decoys, "steps": cs.steps}, func() { vfc35RunCase(cs, rng) })
 		cs.reap()
 		r.Count("wall_ms(informational):histories", int(time.Since(t0).Milliseconds()))
 		_ = os.RemoveAll(dir)
@@ -1271,9 +1355,15 @@ func vfc35RunCase(cs *vfc35Case, rng *rand.Rand) {
 	r.Count("histories_fault_free", 1)
 	r.Count("eligible_blocks_verified_fault_free", cs.eligibleOK)
 	if !cs.expectSuccess() {
-		r.Count("cases_with_corrupted_local_block(sync_never_nil)", 1)
+		r.Count("cases_where_sync_never_returns_nil(corrupted_dir|dangling_or_escaping_symlink)", 1)
 	}
-	r.Sample(map[string]any{"config": cs.cfg, "blocks": cs.blocks, "steps": cs.steps, "bucket_ops_in_fault_free_history": total})
+	for _, b := range cs.blocks {
+		r.Count("block_layout:"+b.Layout, 1)
+	}
+	for _, d := range cs.decoys {
+		r.Count("decoy_entry:"+d.Kind, 1)
+	}
+	r.Sample(map[string]any{"config": cs.cfg, "blocks": cs.blocks, "decoy_entries": cs.decoys, "steps": cs.steps, "bucket_ops_in_fault_free_history": total})
 	for si := range cs.steps {
 		ops := baseOps[si]
 		vfc35LocalCrashStates(cs, rng, si, ops, snaps)
@@ -1327,7 +1417,7 @@ func vfc35RunCase(cs *vfc35Case, rng *rand.Rand) {
 						r.Count("no_nil_sync_within_3_after_fault:"+class+":"+f.mode()+":"+inj.Kind+":"+inj.Class, 1)
 						if n := r.Counter("no_nil_sync_within_3_after_fault:" + class); n <= 2 {
 							r.Extra(fmt.Sprintf("no_nil_sync_example:%s:%d", class, n),
-								map[string]any{"config": cs.cfg, "blocks": cs.blocks, "steps": cs.steps, "history": append([]string(nil), cs.trace...)})
+								map[string]any{"config": cs.cfg, "blocks": cs.blocks, "decoy_entries": cs.decoys, "steps": cs.steps, "history": append([]string(nil), cs.trace...)})
 						}
 						if class == "other" && r.Counter("no_nil_sync_within_3_after_fault:other") <= 5 {
 							r.Inconclusive(fmt.Sprintf("case %d: after fault %s at %s %s no Sync returned nil within 3 attempts although the bucket was healthy again; the property (which speaks about successful syncs) could not be evaluated for this crash point; history: %s",
